@@ -358,4 +358,92 @@ theorem tok_sim {rc : Bool} {t : Tid} {tok : Tok} {rest : List Tok} {g g' : G} {
     | [], h, _, _, _, _ => simp [Lock.wn] at h
     | .api :: _, h, _, _, _, _ => simp [Lock.wn] at h
 
+/-- the invariant of the interleaving semantics -/
+structure Inv (s : Sys) : Prop where
+  cons : Cons s.g
+  thr : ∀ t, TInv t s.g (s.thr t).stack (s.thr t).prog
+
+theorem inv_init {progs : Tid → List Tok} (h : ∀ t, wn [] (progs t) = true) : Inv (Sys.init progs) :=
+  ⟨cons_init, fun t => ⟨rfl, by simp [Sys.init], h t, by simp [Sys.init, view, G.init, interp]⟩⟩
+
+theorem view_other {t u : Tid} {g : G} (h : g.owner = none ∨ g.owner = some t) (hu : u ≠ t) : view u g = A.zero := by
+  rcases h with h | h <;> simp [view, h]
+  intro e; exact absurd e.symm hu
+
+theorem inv_step {rc : Bool} {s s' : Sys} (hi : Inv s) (hs : Step rc s s') : Inv s' := by
+  cases hs with
+  | mk t tok rest g' hp hs =>
+    have ht := hi.thr t
+    rw [hp] at ht
+    obtain ⟨c', ti', o, o'⟩ := tok_sim hi.cons ht hs
+    refine ⟨c', fun u => ?_⟩
+    by_cases hu : u = t
+    · subst hu; simpa [Sys.upd] using ti'
+    · have hv := hi.thr u
+      simp only [Sys.upd, hu, if_false]
+      exact ⟨hv.ok, hv.len, hv.wn, by rw [view_other o' hu, ← hv.view, view_other o hu]⟩
+
+theorem inv_reach {rc : Bool} {progs : Tid → List Tok} (h : ∀ t, wn [] (progs t) = true) {s : Sys}
+    (hr : Reach rc progs s) : Inv s := by
+  induction hr with
+  | init => exact inv_init h
+  | step _ hs ih => exact inv_step ih hs
+
+/-- a thread in application code (top level or callback) is refused by coap_lock_lock_func exactly when another
+thread holds the mutex -/
+theorem lock_blocks_iff {rc : Bool} {t : Tid} {g : G} (hc : Cons g) (ha : goodApp (view t g)) :
+    lockFunc rc t g = none ↔ ∃ u, u ≠ t ∧ g.owner = some u := by
+  have hrc : lockFunc rc t g = lockFunc false t g := by
+    cases rc
+    · rfl
+    · exact lockFunc_rc_eq hc t
+  rw [hrc]
+  obtain ⟨owner, pid, inCb, cnt, fault⟩ := g
+  obtain ⟨hf, hfree, hown⟩ := hc
+  simp only at hf hfree hown
+  cases owner with
+  | none => simp [lockFunc]; split <;> simp
+  | some u =>
+    have hp := hown u rfl
+    subst hp
+    by_cases hu : u = t
+    · subst hu
+      simp only [view, if_true] at ha
+      have hk : inCb ≠ 0 := by
+        intro h0; have := (ha.1 h0).2; simp at this
+      simp [lockFunc, hk]
+    · have hne : ¬ t = u := fun e => hu e.symm
+      simp [lockFunc, selfPid, hne, hu]
+
+/-- the view of a thread standing in front of a token that may block is an application-code view -/
+theorem app_view_of_blocking {t : Tid} {g : G} {st : List Frame} {tok : Tok} {rest : List Tok}
+    (hi : TInv t g st (tok :: rest)) (hb : tok = .lock ∨ ∃ k, tok = .cbOut k) : goodApp (view t g) := by
+  have hg := interp_good st hi.ok
+  rw [hi.view]
+  apply hg.2.1
+  have hwn := hi.wn
+  rcases hb with rfl | ⟨k, rfl⟩
+  · match st, hwn with
+    | [], _ => rfl
+    | .cb _ :: _, _ => rfl
+    | .api :: _, h => simp [Lock.wn] at h
+  · match st, hwn with
+    | [], h => simp [Lock.wn] at h
+    | .cb _ :: _, _ => rfl
+    | .api :: _, h => simp [Lock.wn] at h
+
+/-- only coap_lock_lock_func blocks -/
+theorem blocking_tok {rc : Bool} {t : Tid} {tok : Tok} {g : G} (h : tokStep rc t tok g = none) :
+    (tok = .lock ∨ ∃ k, tok = .cbOut k) ∧ lockFunc rc t g = none := by
+  cases tok with
+  | lock => exact ⟨Or.inl rfl, h⟩
+  | unlock => simp [tokStep] at h
+  | cbIn k => simp [tokStep] at h
+  | cbOut k =>
+    refine ⟨Or.inr ⟨k, rfl⟩, ?_⟩
+    cases k <;> simp [tokStep, cbAfter] at h <;> exact h
+
+theorem wn_nonempty {f : Frame} {st : List Frame} {p : List Tok} (h : wn (f :: st) p = true) : p ≠ [] := by
+  intro e; subst e; simp [wn] at h
+
 end Coap.Lock
